@@ -55,7 +55,9 @@ class Face(ElementBase):
 
         if check_coplanar:
             pts = self.point_array
-            diff = abs(np.dot((pts[1] - pts[0]), np.cross(pts[3] - pts[0], pts[2] - pts[0])))
+            # distance of point 1 from the plane of the other three
+            # (the triple product alone grows with the cube of the face's size)
+            diff = abs(np.dot((pts[1] - pts[0]), f.unit_vector(np.cross(pts[3] - pts[0], pts[2] - pts[0]))))
             if diff > constants.TOL:
                 raise FaceCreationError(
                     "FacePoints are not coplanar!", f"Difference: {diff}, tolerance: {constants.TOL}"
